@@ -202,3 +202,142 @@ mod kani_c15 {
         kani::cover!(len == 32); kani::cover!(len == 0);
     }
 }
+
+// C16: serde impls of the curve crate against the model formats of serde_model.rs.  Field arithmetic behind
+// compress / decompress / from_canonical_bytes is replaced (stubs) by model functions shared with the reference, so
+// what is decided - for ALL byte inputs, all delivered lengths and both format models - is: which bytes are emitted
+// (exactly the canonical encoding, as a 32-tuple), and that deserialisation accepts exactly when the framing is
+// right AND the native decoder accepts, returning the native decoder's value.
+#[cfg(all(kani, feature = "serde"))]
+include!(concat!(env!("VERIF_HOOK_DIR"), "/../kani/serde_model.rs"));
+#[cfg(all(kani, feature = "serde"))]
+mod kani_c16 {
+    use super::serde_model::*;
+    use super::{point_from_tags, point_tags, scalar_raw};
+    use crate::edwards::{CompressedEdwardsY, EdwardsPoint};
+    use crate::ristretto::{CompressedRistretto, RistrettoPoint};
+    use crate::montgomery::MontgomeryPoint;
+    use crate::scalar::Scalar;
+    use subtle::CtOption;
+
+    fn w(b: &[u8; 32]) -> u64 { u64::from_le_bytes([b[0], b[1], b[2], b[3], b[4], b[5], b[6], b[7]]) }
+    // exact reference for canonicity: bytes (little endian) < l, by bytewise comparison from the top
+    const L_BYTES: [u8; 32] = [0xed, 0xd3, 0xf5, 0x5c, 0x1a, 0x63, 0x12, 0x58, 0xd6, 0x9c, 0xf7, 0xa2, 0xde, 0xf9, 0xde, 0x14,
+                               0, 0, 0, 0, 0, 0, 0, 0, 0, 0, 0, 0, 0, 0, 0, 0x10];
+    fn below_l(b: &[u8; 32]) -> bool {
+        let mut i = 32;
+        while i > 0 { i -= 1; if b[i] < L_BYTES[i] { return true; } if b[i] > L_BYTES[i] { return false; } }
+        false
+    }
+    fn m_canon(bytes: [u8; 32]) -> CtOption<Scalar> { CtOption::new(scalar_raw(bytes), (below_l(&bytes) as u8).into()) }
+    fn m_decompress(c: &CompressedEdwardsY) -> Option<EdwardsPoint> {
+        if c.0[0] & 1 == 1 { None } else { Some(point_from_tags(w(&c.0), c.0[31] as u64)) }
+    }
+    fn m_compress(p: &EdwardsPoint) -> CompressedEdwardsY {
+        let mut o = [0u8; 32]; let t = point_tags(p); let a = t.0.to_le_bytes(); let b = t.1.to_le_bytes();
+        let mut i = 0; while i < 8 { o[i] = a[i]; o[8 + i] = b[i] ^ 0x5a; i += 1; }
+        CompressedEdwardsY(o)
+    }
+    fn m_rdecompress(c: &CompressedRistretto) -> Option<RistrettoPoint> {
+        if c.0[1] & 2 == 2 { None } else { Some(RistrettoPoint(point_from_tags(w(&c.0).rotate_left(9), c.0[30] as u64))) }
+    }
+    fn m_rcompress(p: &RistrettoPoint) -> CompressedRistretto {
+        let mut o = [0u8; 32]; let t = point_tags(&p.0); let a = t.0.to_le_bytes(); let b = t.1.to_le_bytes();
+        let mut i = 0; while i < 8 { o[i] = a[i] ^ 0x33; o[16 + i] = b[i]; i += 1; }
+        CompressedRistretto(o)
+    }
+    fn input() -> ([u8; CAP], usize, bool) {
+        let data: [u8; CAP] = kani::any(); let len: usize = kani::any(); kani::assume(len <= 40);
+        (data, len, kani::any())
+    }
+    fn first32(d: &[u8; CAP]) -> [u8; 32] { let mut o = [0u8; 32]; let mut i = 0; while i < 32 { o[i] = d[i]; i += 1; } o }
+    fn is_tuple32(b: &Buf, want: &[u8; 32]) -> bool {
+        if !(b.shape == SHAPE_TUPLE && b.declared == 32 && b.n == 32 && !b.in_tuple) { return false; }
+        let mut i = 0; while i < 32 { if b.b[i] != want[i] { return false; } i += 1; }
+        true
+    }
+
+    #[kani::proof] #[kani::unwind(42)]
+    fn c16_scalar_serialize_is_canonical_bytes() {
+        let bytes: [u8; 32] = kani::any(); let s = scalar_raw(bytes);
+        let b = ser(&s);
+        assert!(b.is_some()); assert!(is_tuple32(&b.unwrap(), &bytes));
+    }
+    #[kani::proof] #[kani::unwind(42)]
+    #[kani::stub(Scalar::from_canonical_bytes, m_canon)]
+    fn c16_scalar_deserialize_validates() {
+        let (data, len, compact) = input();
+        let got: Option<Scalar> = de(&data, len, compact);
+        let b = first32(&data);
+        let want = framing_ok(len, 32, compact, false) && below_l(&b);
+        assert!(got.is_some() == want);
+        if let Some(s) = got { assert!(s.bytes == b); }
+        kani::cover!(got.is_some()); kani::cover!((len == 32) & got.is_none()); kani::cover!(len == 33); kani::cover!(len == 31);
+    }
+    #[kani::proof] #[kani::unwind(42)]
+    #[kani::stub(EdwardsPoint::compress, m_compress)]
+    fn c16_edwards_serialize_is_compressed_bytes() {
+        let p = point_from_tags(kani::any(), kani::any());
+        let b = ser(&p);
+        assert!(b.is_some()); assert!(is_tuple32(&b.unwrap(), &m_compress(&p).0));
+    }
+    #[kani::proof] #[kani::unwind(42)]
+    #[kani::stub(CompressedEdwardsY::decompress, m_decompress)]
+    fn c16_edwards_deserialize_validates() {
+        let (data, len, compact) = input();
+        let got: Option<EdwardsPoint> = de(&data, len, compact);
+        let b = first32(&data);
+        let nat = m_decompress(&CompressedEdwardsY(b));
+        assert!(got.is_some() == (framing_ok(len, 32, compact, false) && nat.is_some()));
+        if let (Some(p), Some(q)) = (got, nat) { assert!(point_tags(&p) == point_tags(&q)); }
+        kani::cover!(got.is_some()); kani::cover!((len == 32) & got.is_none());
+    }
+    #[kani::proof] #[kani::unwind(42)]
+    fn c16_compressed_edwards_roundtrip() {
+        let bytes: [u8; 32] = kani::any();
+        let b = ser(&CompressedEdwardsY(bytes));
+        assert!(b.is_some()); assert!(is_tuple32(&b.unwrap(), &bytes));
+        let (data, len, compact) = input();
+        let got: Option<CompressedEdwardsY> = de(&data, len, compact);
+        assert!(got.is_some() == framing_ok(len, 32, compact, false));
+        if let Some(c) = got { assert!(c.0 == first32(&data)); }
+    }
+    #[kani::proof] #[kani::unwind(42)]
+    #[kani::stub(RistrettoPoint::compress, m_rcompress)]
+    fn c16_ristretto_serialize_is_compressed_bytes() {
+        let p = RistrettoPoint(point_from_tags(kani::any(), kani::any()));
+        let b = ser(&p);
+        assert!(b.is_some()); assert!(is_tuple32(&b.unwrap(), &m_rcompress(&p).0));
+    }
+    #[kani::proof] #[kani::unwind(42)]
+    #[kani::stub(CompressedRistretto::decompress, m_rdecompress)]
+    fn c16_ristretto_deserialize_validates() {
+        let (data, len, compact) = input();
+        let got: Option<RistrettoPoint> = de(&data, len, compact);
+        let b = first32(&data);
+        let nat = m_rdecompress(&CompressedRistretto(b));
+        assert!(got.is_some() == (framing_ok(len, 32, compact, false) && nat.is_some()));
+        if let (Some(p), Some(q)) = (got, nat) { assert!(point_tags(&p.0) == point_tags(&q.0)); }
+        kani::cover!(got.is_some()); kani::cover!((len == 32) & got.is_none());
+    }
+    #[kani::proof] #[kani::unwind(42)]
+    fn c16_compressed_ristretto_roundtrip() {
+        let bytes: [u8; 32] = kani::any();
+        let b = ser(&CompressedRistretto(bytes));
+        assert!(b.is_some()); assert!(is_tuple32(&b.unwrap(), &bytes));
+        let (data, len, compact) = input();
+        let got: Option<CompressedRistretto> = de(&data, len, compact);
+        assert!(got.is_some() == framing_ok(len, 32, compact, false));
+        if let Some(c) = got { assert!(c.0 == first32(&data)); }
+    }
+    #[kani::proof] #[kani::unwind(42)]
+    fn c16_montgomery_roundtrip() {
+        let bytes: [u8; 32] = kani::any();
+        let b = ser(&MontgomeryPoint(bytes));
+        assert!(b.is_some()); assert!(is_tuple32(&b.unwrap(), &bytes));
+        let (data, len, compact) = input();
+        let got: Option<MontgomeryPoint> = de(&data, len, compact);
+        assert!(got.is_some() == framing_ok(len, 32, compact, false));
+        if let Some(c) = got { assert!(c.0 == first32(&data)); }
+    }
+}
